@@ -65,9 +65,16 @@ def f64_tables(ctx, c, wb, rb):
             if isinstance(x, (tuple, list)):
                 return any(find_parse(a, text) for a in x if isinstance(a, (tuple, list)))
             return False
-        for text, exp in (("Infinity", float("inf")), ("-Infinity", float("-inf")), ("1.5", None), ("inf", None), ("-inf", None), ("infinity", None), ("NaN", None), ("", None)):
+        PARSE_F64 = {"def": "core::str::<impl str>::parse", "name": "parse", "local": False, "substs": [{"prim": "f64"}]}
+        for text, exp in (("Infinity", float("inf")), ("-Infinity", float("-inf")), ("1.5", None), ("-0", None), ("inf", None), ("-inf", None), ("infinity", None), ("NaN", None), ("", None), ("x", None)):
             r = I.run(rb, [text])
-            rrows.append((text, exp, r, find_parse(r, text)))
+            model = I.call(rb, PARSE_F64, [text], 0)      # what str::parse::<f64>() itself returns for this text
+            same = find_parse(r, text)
+            if not same and minterp.is_adt(r) and minterp.is_adt(model) and r[1] == model[1] == "core::result::Result" and r[2] == model[2]:
+                a_, b_ = (r[3][0] if r[3] else None), (model[3][0] if model[3] else None)
+                import math as _m
+                same = r[2] == 1 or (isinstance(a_, float) and isinstance(b_, float) and ((a_ != a_ and b_ != b_) or (a_ == b_ and _m.copysign(1, a_) == _m.copysign(1, b_))))
+            rrows.append((text, exp, r, same))
     except minterp.Unsupported:
         return False
     for label, v, spelling, arg in wrows:
@@ -83,8 +90,8 @@ def f64_tables(ctx, c, wb, rb):
             val = r[3][0] if minterp.is_adt(r) and r[1] == "core::result::Result" and r[2] == 0 and r[3] else None
             got[text] = val
         else:
-            ctx.check(parses and not (minterp.is_adt(r) and r[2] == 0 and r[3] and isinstance(r[3][0], float)), "R12.2", rb.loc(), "f64|reader-fallback",
-                      f"FromPlain for f64 must defer to str::parse::<f64> for the text {text!r} (got {minterp.show(I, r)[:80]})", instance="f64 reader: otherwise str::parse::<f64>")
+            ctx.check(parses, "R12.2", rb.loc(), "f64|reader-fallback",
+                      f"FromPlain for f64 must return what str::parse::<f64>() returns for the text {text!r} (got {minterp.show(I, r)[:80]})", instance="f64 reader: otherwise str::parse::<f64>")
     ctx.check(got == {"Infinity": float("inf"), "-Infinity": float("-inf")}, "R12.2", rb.loc(), "f64|reader-table", f"FromPlain for f64 maps {got}; expected Infinity -> +inf, -Infinity -> -inf (the writer's spellings)",
               instance="f64 reader: Infinity -> inf, -Infinity -> -inf")
     return True
@@ -151,6 +158,13 @@ def run(ctx):
             return out
         wt, rt = spelling_tables(wb), spelling_tables(rb)
         table_form = bool(wt) and wt == rt
+    if rb is not None:
+        from .. import inline as _inl
+        rbx = _inl.expand(c, rb, depth=2, pred=lambda cb: cb.d.get("vis") != "pub", lower=True)
+        foreign = sorted({tystr(x_) for _, t in rbx.calls() if t["call"]["name"] in ("parse", "from_str") and ("core::str" in t["call"]["def"] or "FromStr" in t["call"]["def"])
+                          for x_ in (t["call"].get("substs") or [])[-1:] if tystr(x_) not in ("f64", "str", "conjure_object::plain::PlainDouble") and "param" not in x_ and not (ty_adt(x_) or "").startswith("conjure_object::")})
+        ctx.check(not foreign, "R12.2", rb.loc(), "f64|reader-single-parser", f"FromPlain for f64 also parses the text as {foreign}: a second number grammar on the same text loses what only f64 distinguishes (the sign of \"-0\", digits beyond the other type's range)",
+                  instance="f64 reader: the text is parsed as f64 only", nontrivial=False)
     if wb is not None and rb is not None and table_form:
         spec_pairs = sorted([("Infinity", "inf"), ("-Infinity", "-inf")])
         ctx.check(len(wt) == 1 and wt[0][1] == spec_pairs, "R12.2", wb.loc(), "f64|table", f"the shared spelling table of Plain / FromPlain for f64 is {wt}; specification: {spec_pairs}", instance=f"f64: writer and reader share the table {spec_pairs}")
